@@ -339,9 +339,16 @@ pub fn gen_large_gcase(c: &mut Case) -> GCase {
     let kidx = *c.rng.pick(&[9usize, 10, 12, 13]);
     // half of the cases exceed 65 536 distinct k-mers / nodes-before-compression (16-bit thresholds)
     let glen = if c.rng.chance(1, 2) { 20_000 + c.rng.below(40_000) } else { 70_000 + c.rng.below(90_000) };
-    let genome = crate::gen::gen_genome(&c.rng, glen, 30, 50);
+    // a third of the cases: no planted repeats and the genome given as ONE read, so that a single
+    // unbranched line holds > 65 536 k-mers
+    let single_line = c.rng.chance(1, 3);
+    let genome = crate::gen::gen_genome(&c.rng, if single_line { glen.max(140_000) } else { glen }, if single_line { 0 } else { 30 }, 50);
     let mut reads = Vec::new();
     let mut pos = 0;
+    if single_line {
+        reads.push(genome.clone());
+        pos = genome.len();
+    }
     while pos + 40 < genome.len() {
         let len = 60 + c.rng.below(200);
         let end = (pos + len).min(genome.len());
@@ -352,23 +359,24 @@ pub fn gen_large_gcase(c: &mut Case) -> GCase {
     GCase {
         kidx,
         stranded: c.rng.chance(1, 3),
-        thr: c.rng.range(1, 3),
+        thr: if single_line { 1 } else { c.rng.range(1, 3) },
         reads,
-        by_colour: c.rng.chance(1, 2),
+        by_colour: c.rng.chance(1, 2) && !single_line,
         ncol: 3,
         salt: c.rng.next(),
     }
 }
 
 pub fn run_c01(ctx: &Ctx) {
-    let n = ctx.n(60_000, 3_000_000);
+    // > 65 536 compress calls per worker thread in the quick tier (state carried from call to call)
+    let n = ctx.n(300_000, 6_000_000);
     ctx.run_group("compress", n, false, |c| {
         let gc = gen_gcase(c);
         with_graph_k!(gc.kidx, K => compress_case::<K>(c, &gc, Which::Lossless))
     });
     if !ctx.is_miri() && ctx.lane != "asan" {
         ctx.set_case_timeout(600);
-        ctx.run_group("compress_large", ctx.n(4, 200), false, |c| {
+        ctx.run_group("compress_large", ctx.n(6, 200), false, |c| {
             let gc = gen_large_gcase(c);
             c.count("large_cases", 1);
             with_graph_k!(gc.kidx, K => compress_case::<K>(c, &gc, Which::Lossless))
@@ -718,6 +726,34 @@ fn c03_case<K: Kmer + Send + Sync>(c: &mut Case, gc: &GCase) -> Result<(), Strin
         }
     }
 
+    // fix_exts itself (mutating): query one node side, prune against a valid set, and check every
+    // edge list again starting with the side queried last (answers must follow the new extensions)
+    if g.len() > 0 {
+        let mut gm = lib_direct::<K>(&seqs, stranded, gc.thr).0;
+        let mut valid = BitSet::with_capacity(gm.len());
+        for i in 0..gm.len() {
+            if c.rng.chance(2, 3) {
+                valid.insert(i);
+            }
+        }
+        let expect: Vec<u8> = (0..gm.len()).map(|i| gm.get_valid_exts(i, Some(&valid)).val).collect();
+        let _ = gm.get_node(0).l_edges();
+        gm.fix_exts(Some(&valid));
+        for i in 0..gm.len() {
+            ensure!(gm.get_node(i).exts().val == expect[i], "fix_exts(valid set): node {} has extensions {:#04x}, get_valid_exts said {:#04x}", i, gm.get_node(i).exts().val, expect[i]);
+        }
+        // (edges out of invalid nodes are kept, so the edge relation is deliberately one-sided here)
+        check_edges_opts(&gm, None, false, false).map_err(|e| format!("after fix_exts(valid set): {}", e))?;
+        for i in 0..gm.len() {
+            for d in [Dir::Left, Dir::Right] {
+                for e in gm.get_node(i).edges(d) {
+                    ensure!(valid.contains(e.0), "after fix_exts(valid set) node {} still reports an edge to the invalid node {}", i, e.0);
+                }
+            }
+        }
+        c.count("fix_exts_mutations_checked", 1);
+    }
+
     // best paths and random walks
     if c.verbose {
         for i in 0..g.len() {
@@ -786,6 +822,40 @@ fn c03_case<K: Kmer + Send + Sync>(c: &mut Case, gc: &GCase) -> Result<(), Strin
     Ok(())
 }
 
+/// > 65 535 observations of one read followed by a read that diverges from it: the late observation
+/// brings a new neighbour; through the library's CountFilter and the direct pipeline
+fn c03_abundant(c: &mut Case) -> Result<(), String> {
+    type K = Kmer12;
+    let k = 12;
+    let stranded = c.rng.chance(1, 2);
+    let r0 = c.rng.bases(k + c.rng.range(4, 12), 4);
+    let copies = 65_540 + c.rng.below(200);
+    let mut div = r0[..k + 2].to_vec();
+    let nb = (r0[k + 2] + 1 + c.rng.below(3) as u8) & 3;
+    div.push(nb);
+    div.extend(c.rng.bases(6, 4));
+    let mut reads: Vec<S> = vec![r0.clone(); copies];
+    reads.push(div);
+    if c.rng.chance(1, 2) {
+        reads.push(rc(&r0));
+    }
+    let seqs = whole_reads(&reads);
+    let thr = c.rng.range(1, 2);
+    let (mut rows, _) = lib_count_table::<K>(&seqs, stranded, thr, false);
+    remove_censored_exts(stranded, &mut rows);
+    let rows_p: Vec<(K, (Exts, Pay))> = rows.iter().map(|(kk, (e, cnt))| (*kk, (*e, Pay { colour: 0, ids: vec![*cnt as u32] }))).collect();
+    let g = compress_kmers(stranded, &SpySpec::new(false), &rows_p).finish();
+    let t = build_table(&seqs, k, stranded);
+    let keyset: BTreeSet<S> = t.iter().filter(|(_, r)| r.obs.len() >= thr).map(|(x, _)| x.clone()).collect();
+    let adj = adjacency(&seqs, k, stranded, &keyset);
+    let node_keys: BTreeSet<S> = node_partition(&views(&g.base), k, stranded).into_iter().flatten().collect();
+    ensure!(node_keys == keyset, "abundant input: graph k-mer set != retained k-mer set");
+    check_edges(&g, Some(&adj), true).map_err(|e| format!("abundant input ({} copies of one read + a diverging read): {}", copies, e))?;
+    c.count("abundant_kmer_graphs", 1);
+    c.nontrivial(H::new().u(copies as u64).b(&r0).get());
+    Ok(())
+}
+
 pub fn run_c03(ctx: &Ctx) {
     let n = ctx.n(30_000, 1_500_000);
     ctx.run_group("edges", n, false, |c| {
@@ -799,6 +869,9 @@ pub fn run_c03(ctx: &Ctx) {
             c.count("large_cases", 1);
             with_graph_k!(gc.kidx, K => c03_case::<K>(c, &gc))
         });
+    }
+    if !ctx.is_miri() && ctx.lane != "asan" {
+        ctx.run_group("abundant", ctx.n(4, 40), false, |c| c03_abundant(c));
     }
     // hand-built graphs: arbitrary node sequences, every k-mer queried
     let nh = ctx.n(20_000, 1_000_000);
@@ -902,7 +975,22 @@ fn c04_generic<K: Kmer + Send + Sync, P: Kmer, V: Vmer + Clone>(
         _ => Some((0..1usize << (2 * p)).rev().collect()),
     };
     let (gs, nshards) = lib_sharded::<K, P, V>(&seqs, stranded, gc.thr, perm.as_deref(), c.rng.chance(1, 2));
+    // the one-pass reference is sometimes made under a small memory budget (several bucket passes)
+    let multi = c.rng.chance(1, 3);
+    if multi {
+        let windows: usize = seqs.iter().map(|s| (s.bases.len() + 1).saturating_sub(k)).sum();
+        let kmer_mem = windows * std::mem::size_of::<(K, u32)>();
+        let slices = *c.rng.pick(&[2usize, 3, 5, 7]);
+        if kmer_mem > slices {
+            debruijn::verif_hooks::set_filter_mem_unit(Some((kmer_mem / (slices - 1)).max(1)));
+        }
+    }
     let (gd, _) = lib_direct::<K>(&seqs, stranded, gc.thr);
+    if multi {
+        let passes = debruijn::verif_hooks::filter_pass_trace().len();
+        debruijn::verif_hooks::set_filter_mem_unit(None);
+        c.count("direct_pipelines_with_several_bucket_passes", (passes > 1) as u64);
+    }
     let ss = summarize(&pay_views(&gs), k, stranded);
     let sd = summarize(&pay_views(&gd), k, stranded);
     let sm = model_summary(&seqs, k, stranded, gc.thr);
@@ -1041,6 +1129,7 @@ pub fn run_c04(ctx: &Ctx) {
     }
     if !ctx.is_miri() {
         ctx.require("cases_with_multiple_shards", 200);
+        ctx.require("direct_pipelines_with_several_bucket_passes", 200);
         ctx.require("cases_with_many_shards", 20);
         ctx.require("cases_stranded", 20);
     }
@@ -1541,7 +1630,17 @@ fn c09_case<K: Kmer + Send + Sync>(c: &mut Case, gc: &GCase) -> Result<(), Strin
     // payload ids are folded again in a different order; compare as sorted multisets (summarize sorts)
     diff_summaries(&s1, &s2, "compressed graph", "re-compressed graph").map_err(|e| format!("idempotence: {}", e))?;
     s2.payload.clear();
-    let _ = out_copy;
+    // the same output re-compressed under the OTHER predicate must follow that predicate (a result
+    // must not be "remembered as compressed")
+    {
+        let relabelled = relabel(&out_copy, &colour);
+        let check_copy = relabel_same(&relabelled);
+        let other = !by_colour;
+        let out3 = compress_graph(stranded, &SpySpec::new(other), relabelled, None);
+        c09_check(&check_copy, &[], other, &out3)
+            .map_err(|e| format!("compress_graph(by_colour={}) of a graph produced by compress_graph(by_colour={}): {}", other, by_colour, e))?;
+        c.count("predicate_switch_recompressions", 1);
+    }
     // route equality without censoring and with the always-true predicate
     if censor.is_empty() && !by_colour && variant != 3 && variant != 4 {
         let sd = summarize(&pay_views(&gd), k, stranded);
@@ -1587,12 +1686,84 @@ fn relabel_same<K: Kmer + Send + Sync>(g: &DebruijnGraph<K, Pay>) -> DebruijnGra
     b.finish()
 }
 
+/// a long sequence cut into consecutive nodes (overlap K-1) of 1..12 kb, stored in random
+/// orientation: compress_graph must join them into one node spelling the sequence
+fn c09_long_nodes<K: Kmer + Send + Sync>(c: &mut Case) -> Result<(), String> {
+    let k = K::k();
+    let stranded = c.rng.chance(1, 2);
+    let total = c.rng.range(9_000, 40_000);
+    let s = c.rng.bases(total, 4);
+    {
+        let mut ws: Vec<&[u8]> = s.windows(k).collect();
+        ws.sort();
+        let n0 = ws.len();
+        ws.dedup();
+        let canon_set: BTreeSet<S> = s.windows(k).map(|w| canon_s(w, stranded)).collect();
+        if ws.len() != n0 || canon_set.len() != n0 {
+            return Ok(()); // a repeated k-mer: not an unbranched line
+        }
+        if s.windows(k).any(|w| is_pal(w, stranded)) {
+            // a self-reverse-complement k-mer must be a node of its own; a hand-cut node hiding one
+            // would not be a valid input graph
+            c.count("long_node_cases_skipped_for_palindromes", 1);
+            return Ok(());
+        }
+    }
+    let mut b: BaseGraph<K, Pay> = BaseGraph::new(stranded);
+    let mut pos = 0usize;
+    let mut id = 0u32;
+    let mut lens = Vec::new();
+    while pos + k <= total {
+        let len = (*c.rng.pick(&[k + 1, 300, 4095, 4096, 4097, 5000, 8191, 8192, 12_000])).max(k);
+        let end = (pos + len).min(total);
+        if total - end < k && end != total {
+            // do not leave a tail shorter than a k-mer
+        }
+        let end = if total - end < 1 { total } else { end };
+        let piece = &s[pos..end];
+        let flip = !stranded && c.rng.chance(1, 2);
+        let (seq, left, right): (S, Option<u8>, Option<u8>) = {
+            let l = if pos > 0 { Some(s[pos - 1]) } else { None };
+            let r = if end < total { Some(s[end]) } else { None };
+            if flip { (rc(piece), r.map(|x| 3 - x), l.map(|x| 3 - x)) } else { (piece.to_vec(), l, r) }
+        };
+        let mut e = 0u8;
+        if let Some(x) = left { e |= bit(L, x); }
+        if let Some(x) = right { e |= bit(R, x); }
+        b.add(&seq, Exts::new(e), Pay { colour: 0, ids: vec![id] });
+        id += 1;
+        lens.push(end - pos);
+        if end == total { break; }
+        pos = end - (k - 1);
+    }
+    let g = b.finish();
+    let copy = relabel_same(&g);
+    let out = compress_graph(stranded, &SpySpec::new(false), g, None);
+    c09_check(&copy, &[], false, &out).map_err(|e| format!("joining {} consecutive nodes of lengths {:?} (K={}, stranded={}): {}", lens.len(), lens, k, stranded, e))?;
+    ensure!(out.len() == 1, "joining {} consecutive nodes gives {} nodes", lens.len(), out.len());
+    let got = out.get_node(0).sequence().bytes();
+    ensure!(got == s || got == rc(&s), "the joined node does not spell the original sequence (lengths {:?})", lens);
+    c.count("long_node_joins", 1);
+    c.count("long_nodes_of_4096_or_more_bases", lens.iter().filter(|l| **l >= 4096).count() as u64);
+    c.nontrivial(H::new().u(c.idx).u(total as u64).get());
+    Ok(())
+}
+
 pub fn run_c09(ctx: &Ctx) {
     let n = ctx.n(30_000, 1_500_000);
     ctx.run_group("recompress", n, false, |c| {
         let gc = gen_gcase(c);
         with_graph_k!(gc.kidx, K => c09_case::<K>(c, &gc))
     });
+    if !ctx.is_miri() {
+        ctx.run_group("long_nodes", ctx.n(300, 10_000), false, |c| match c.rng.below(3) {
+            0 => c09_long_nodes::<Kmer16>(c),
+            1 => c09_long_nodes::<Kmer24>(c),
+            _ => c09_long_nodes::<Kmer32>(c),
+        });
+        ctx.require("long_nodes_of_4096_or_more_bases", 100);
+        ctx.require("predicate_switch_recompressions", 1000);
+    }
     if !ctx.is_miri() && ctx.lane != "asan" {
         ctx.set_case_timeout(900);
         ctx.run_group("recompress_large", ctx.n(3, 60), false, |c| {
